@@ -177,7 +177,11 @@ def Kind.isJson : Kind → Bool
 
 inductive Fault where
   | none | notFound | unprocessable
+  | error (code : Nat)      -- any other API error (403, 409, 5xx after the retries, …): an `APIError` is raised
   deriving DecidableEq, Repr, Inhabited
+
+/-- the status code of a generic injected error: never one of the three codes with a meaning of their own -/
+def errCode (c : Nat) : Nat := if c = 200 ∨ c = 404 ∨ c = 422 then 500 else c
 
 inductive Payload where
   | merge (p : Kvs)
@@ -194,14 +198,12 @@ structure Req where
   deriving Repr, Inhabited
 
 structure Env where
-  slips : Kind → Option Foreign     -- a foreign write right before the request of that kind
+  slips : Kind → List Foreign       -- the foreign writes (in order) right before the request of that kind
   faults : Kind → Fault             -- an injected response instead of serving it
 
-/-- the server after the foreign write (if any) that slips in right before the request of kind `k`. -/
+/-- the server after the foreign writes that slip in right before the request of kind `k`. -/
 def slipped (env : Env) (k : Kind) (s : Server) : Server :=
-  match env.slips k with
-  | some w => foreign w s
-  | none => s
+  (env.slips k).foldl (fun s w => foreign w s) s
 
 /-- the payload applied to the stored object; `none` = the `test` op fails (422). -/
 def applyPayload (pl : Payload) (o : Obj) : Option Obj :=
@@ -230,6 +232,7 @@ def step (sub : Bool) (env : Env) (k : Kind) (pl : Payload) (s : Server) : Serve
   match env.faults k with
   | .notFound => (s1, ⟨k, pl, none, 404⟩, none)
   | .unprocessable => (s1, ⟨k, pl, none, 422⟩, none)
+  | .error c => (s1, ⟨k, pl, none, errCode c⟩, none)
   | .none =>
     match s1.obj with
     | none => (s1, ⟨k, pl, none, 404⟩, none)
@@ -264,7 +267,7 @@ def doReq (sub : Bool) (env : Env) (k : Kind) (pl : Payload) (st : St) : M St :=
   let st' : St := { server := r.1, reqs := st.reqs ++ [r.2.1], fresh := st.fresh }
   if r.2.1.code = 200 then .ok { st' with fresh := r.2.2 }
   else if r.2.1.code = 404 then .error (st', .gone)
-  else if k.isJson then .error (st', .conflict)
+  else if r.2.1.code = 422 ∧ k.isJson = true then .error (st', .conflict)   -- `except APIUnprocessableEntityError`
   else .error (st', .raised)
 
 def bodyPart (sub : Bool) (fields : Kvs) : Kvs :=
@@ -331,7 +334,7 @@ def stageJson (sub : Bool) (p : Patch) (orig : Obj) (env : Env) (st : St) : M St
 inductive Outcome where
   | ok (remaining : Option (List Fn)) (body : Option Obj)   -- `(patched_body, remaining_patch)`
   | gone                                                    -- 404: `(None, None)`
-  | raised                                                  -- 422 on a merge-patch: exception
+  | raised                                                  -- any other API error (422 on a merge-patch included): exception
   deriving Repr, Inhabited
 
 structure Result where
@@ -388,8 +391,36 @@ def cycle := cycleOf false
 /-- `_daemon` / `_timer` -/
 def daemonCycle := cycleOf true
 
+/-- The call left nothing to retry: every request was accepted (`(body, None)`), or the object is gone. -/
+def Outcome.accepted : Outcome → Bool
+  | .ok none _ => true
+  | .gone => true
+  | _ => false
+
+/-- what one processing cycle of an object brings along: the fields and fns it accumulates (handler
+    results, progress, the framework's finalizer decision, handler-supplied fns), the event body it
+    works on, and what the rest of the world does meanwhile -/
+structure CycleIn where
+  fields : Kvs
+  fns : List Fn
+  orig : Obj
+  env : Env
+
+/-- consecutive cycles of one object in `process_resource_event`: memory and server after them -/
+def run (sub : Bool) : Option (List Fn) → Server → List CycleIn → Option (List Fn) × Server
+  | mem, s, [] => (mem, s)
+  | mem, s, c :: cs =>
+      run sub (cycle sub mem c.fields c.fns c.orig c.env s).2 (cycle sub mem c.fields c.fns c.orig c.env s).1.server cs
+
+/-- none of these cycles' calls was accepted (each was refused with a remaining patch, or raised) -/
+def allRefused (sub : Bool) : Option (List Fn) → Server → List CycleIn → Bool
+  | _, _, [] => true
+  | mem, s, c :: cs =>
+      !(cycle sub mem c.fields c.fns c.orig c.env s).1.outcome.accepted &&
+      allRefused sub (cycle sub mem c.fields c.fns c.orig c.env s).2 (cycle sub mem c.fields c.fns c.orig c.env s).1.server cs
+
 /-- quiet environment: no slips, no faults -/
-def Env.quiet : Env := { slips := fun _ => none, faults := fun _ => .none }
+def Env.quiet : Env := { slips := fun _ => [], faults := fun _ => .none }
 
 /-! ## vocabulary of the property statements -/
 
